@@ -50,7 +50,7 @@ def run(prop, tier, seed, replay=None):
             else:
                 cases.append((d, None, False, False))
     else:
-        cases = [tuple(replay["case"])]
+        cases = [tuple(replay["case"][:4]) + (replay.get("texts"),)]      # the recorded TOML texts are used verbatim
     parts = [(seed * 1000 + i, c) for i, c in enumerate(chunked(cases, 250))]
     traces = common.pmap(config.run_cases, parts)
     texts = [[r.pop("_texts", {}) for r in t] for t in traces]
@@ -75,7 +75,7 @@ def run(prop, tier, seed, replay=None):
                    rule="all pairs of 17 small documents (0-2 keys, nesting <= 2, scalar <-> table type changes) with an existing file, each small document without a file, plus random documents of nesting <= 3 over 4 keys and leaf kinds "
                         "int/str/float/bool/array, user files with comments; every case in a fresh config directory; non-trivial = non-empty defaults; distinct by (defaults, user file, file present)")
     rep.notes["with_file"] = sum(1 for c in cases if c[2])
-    rep.sample({k: v for k, v in traces[0][5].items()})
+    rep.sample({k: v for k, v in traces[0][min(5, len(traces[0]) - 1)].items()})
     for i in sorted(rej):
         if i >= nreal:
             continue
